@@ -1,3 +1,4 @@
+import KitModel.Crypto.Dispatch
 import Driver.C01
 import Driver.C02
 import Driver.C03
@@ -41,6 +42,9 @@ def main (args : List String) : IO UInt32 :=
   | "C18" :: rest => Driver.C18.main rest
   | "C19" :: rest => Driver.C19.main rest
   | "C20" :: rest => Driver.C20.main rest
+  | "crypto" :: _ => do
+    Kit.lineLoop (fun (_ : Unit) l => ((), Kit.Crypto.selfTestLine l)) ()
+    return 0
   | _ => do
     IO.eprintln "usage: kitdrv <C01..C20> [args]"
     return 2
